@@ -1044,7 +1044,10 @@ class Fxp():
                 if self.n_frac == 0:
                     val = raw_val
                 else:
-                    val = utils.int_array(raw_val // self._get_conv_factor())   # (the quotient can be a python scalar if raw_val is a 0-d object array)
+                    conv_factor = self._get_conv_factor()
+                    if isinstance(conv_factor, int) and conv_factor >= 2**63 and isinstance(raw_val, (np.ndarray, np.generic)) and raw_val.dtype != object:
+                        raw_val = np.asarray(raw_val).astype(object)    # (a factor of 2**63 or more does not fit in the 64 bits integers of numpy)
+                    val = utils.int_array(raw_val // conv_factor)   # (the quotient can be a python scalar if raw_val is a 0-d object array)
                 
             elif dtype == complex or np.issubdtype(dtype, np.complexfloating):
                 val = (raw_val.real + 1j * raw_val.imag) / self._get_conv_factor()
